@@ -5,6 +5,7 @@ import (
 	"errors"
 	"fmt"
 	"math/bits"
+	"time"
 
 	"go.sia.tech/core/blake2b"
 	"go.sia.tech/core/types"
@@ -16,9 +17,11 @@ var ErrCommitmentMismatch = errors.New("commitment hash mismatch")
 
 // ValidateHeader validates bh in the context of s.
 func ValidateHeader(s State, bh types.BlockHeader) error {
+	// NOTE: timestamps are encoded, and hashed into the ID, with second
+	// precision, so that is the precision they are judged with
 	if bh.ParentID != s.Index.ID {
 		return errors.New("wrong parent ID")
-	} else if bh.Timestamp.Before(s.medianTimestamp()) {
+	} else if bh.Timestamp.Truncate(time.Second).Before(s.medianTimestamp()) {
 		return errors.New("timestamp too far in the past")
 	} else if bh.Nonce%s.NonceFactor() != 0 {
 		return errors.New("nonce not divisible by required factor")
